@@ -7,5 +7,6 @@ cd "$(dirname "$0")/../.."
 if [ "${1:-}" = "--replay" ]; then
   export VERIF_REPLAY="$(readlink -f "$2")"
 fi
-inpkg_test pkg/kgo "$VERIF_ROOT/hooks/inpkg/c19_kgo_test.go" "$BUILD/c19_kgo.test" || { echo "INFRA-ERROR: build failed" >&2; exit 2; }
+# shared machine: bound the build's parallelism (VERIF_BUILD_P overrides)
+inpkg_test pkg/kgo "$VERIF_ROOT/hooks/inpkg/c19_kgo_test.go" "$BUILD/c19_kgo.test" -p "${VERIF_BUILD_P:-4}" || { echo "INFRA-ERROR: build failed" >&2; exit 2; }
 exec "$BUILD/c19_kgo.test" -test.run '^TestVerifC19$' -test.timeout 0
